@@ -12,7 +12,8 @@ M-APPLY (C18): `blueprint apply`.
   loading decodes the bytes and recovers the language by trying V3, V2, V1 against the hash.
 * `applyScript` = `tx::apply_params_to_script` (the unvalidated fold).
 
-The byte codec and the hash are parameters (`Codec`): their round trip is C08's subject.
+The byte codec and the hash are parameters (`Codec β η`, `β` = bytes, `η` = hashes): their
+round trip is C08's subject.
 -/
 namespace AikenVerif.Apply
 open AikenVerif.Blueprint
@@ -71,23 +72,23 @@ def applyScript (p : Program DeBruijn) (ds : List Data) : Program DeBruijn :=
   ds.foldl applyData p
 
 /-- byte codec and hash (C08): `ser` = cbor ∘ flat, `de` its decoder, `hash lang bytes` -/
-structure Codec where
-  ser : Program DeBruijn → Bytes
-  de : Bytes → Option (Program DeBruijn)
-  hash : Lang → Bytes → Bytes
+structure Codec (β η : Type) where
+  ser : Program DeBruijn → β
+  de : β → Option (Program DeBruijn)
+  hash : Lang → β → η
 
 /-- what the blueprint file holds for a validator -/
-structure Saved where
+structure Saved (β η : Type) where
   params : List (Decl Schema)
-  compiledCode : Bytes
-  hash : Bytes
+  compiledCode : β
+  hash : η
 
 /-- `Serialize`: `compiled_code_and_hash` -/
-def save (c : Codec) (v : Validator) : Saved :=
+def save {β η : Type} (c : Codec β η) (v : Validator) : Saved β η :=
   { params := v.params, compiledCode := c.ser v.program, hash := c.hash v.lang (c.ser v.program) }
 
 /-- `Deserialize`: decode, re-encode, find the language whose hash matches (V3, V2, V1) -/
-def load (c : Codec) (s : Saved) : Option Validator :=
+def load {β η : Type} [DecidableEq η] (c : Codec β η) (s : Saved β η) : Option Validator :=
   match c.de s.compiledCode with
   | none => none
   | some p =>
@@ -97,9 +98,9 @@ def load (c : Codec) (s : Saved) : Option Validator :=
     else none
 
 /-- the state of a deployment session: the validator in memory and the file last written -/
-structure State where
+structure State (β η : Type) where
   v : Validator
-  file : Saved
+  file : Saved β η
 
 inductive Op where
   /-- `aiken blueprint apply <d>`: on acceptance the blueprint is rewritten -/
@@ -107,9 +108,9 @@ inductive Op where
   /-- a new process starts from the file -/
   | reload
 
-def init (c : Codec) (v : Validator) : State := ⟨v, save c v⟩
+def init {β η : Type} (c : Codec β η) (v : Validator) : State β η := ⟨v, save c v⟩
 
-def step (c : Codec) (tbl : Table) (s : State) : Op → State
+def step {β η : Type} [DecidableEq η] (c : Codec β η) (tbl : Table) (s : State β η) : Op → State β η
   | .apply d =>
     match apply true tbl s.v d with
     | .ok v' => ⟨v', save c v'⟩
@@ -119,11 +120,11 @@ def step (c : Codec) (tbl : Table) (s : State) : Op → State
     | some v' => ⟨v', s.file⟩
     | none => s
 
-def run (c : Codec) (tbl : Table) (s : State) (ops : List Op) : State :=
+def run {β η : Type} [DecidableEq η] (c : Codec β η) (tbl : Table) (s : State β η) (ops : List Op) : State β η :=
   ops.foldl (step c tbl) s
 
 /-- the arguments of a history that were accepted, in order -/
-def accepted (c : Codec) (tbl : Table) : State → List Op → List Data
+def accepted {β η : Type} [DecidableEq η] (c : Codec β η) (tbl : Table) : State β η → List Op → List Data
   | _, [] => []
   | s, .apply d :: ops =>
     match apply true tbl s.v d with
